@@ -51,7 +51,7 @@ def main():
     benign = "--benign" in sys.argv
     work = []
     if benign:
-        allp = ["C%02d" % i for i in range(1, 21)]
+        allp = os.environ["VERIF_PIDS"].split(",") if os.environ.get("VERIF_PIDS") else ["C%02d" % i for i in range(1, 21)]   # subset: quick regression after a rule change
         for p in sorted(glob.glob(os.path.join(V, "mutants", "benign", "*.patch"))):
             if args and not any(a in os.path.basename(p) for a in args):
                 continue
@@ -67,6 +67,8 @@ def main():
             pid = json.load(open(meta)).get("property") if os.path.exists(meta) else None
             if pid and (not args or pid in args):
                 work.append((p, [pid]))
+    if os.environ.get("VERIF_ONLY"):      # e.g. VERIF_ONLY=r8- with all property ids as arguments: add one round to RESULTS.json
+        work = [w for w in work if os.environ["VERIF_ONLY"] in w[0]]
     res = []
     with concurrent.futures.ThreadPoolExecutor(max_workers=jobs) as ex:
         futs = [ex.submit(run_one, p, pids) for p, pids in work]
